@@ -60,6 +60,27 @@ def lock_counter_range(ctx, rid):
     return n
 
 
+def _grant_freeze(ctx, rid, rel, acls, fx):
+    for rr, lock, chans in (("self.rr_write", "self.wr_lock", ("aw", "w", "b")), ("self.rr_read", "self.rd_lock", ("ar", "r"))):
+        ce = fx.find(domain="comb", target=f"{rr}.ce")
+        ok = len(ce) == 1 and not ce[0].guards
+        if ok:
+            fce = B.from_expr(ce[0].value)
+            ok = B.entails(fce, B.A(f"{lock}.ready")) and all(B.entails(fce, B.Not(B.A(f"target.{c}.valid"))) for c in chans)
+        ctx.ob(rid, rel, acls, f"{rr}.ce needs {lock}.ready and an idle target", ok,
+               "" if ok else f"{rr}.ce <= {ce[0].v if ce else '?'}: arbitration can change while responses are outstanding",
+               ce[0].line if ce else 0)
+
+
+def arbiter_grant_freeze(ctx, rid):
+    """The arbiters' grant is frozen while any channel of the target is valid, responses included (shared with C11: the watchdog's
+    error response is a b/r.valid the lock counters never counted -- when the request's address beat was not accepted, e.g. W before
+    AW -- and only the response term keeps the grant on the master that is being answered; without it the error goes to another
+    master and that master's own request is swallowed)."""
+    for rel, ccls, acls, dcls, full in FAMILIES:
+        _grant_freeze(ctx, rid, rel, acls, fx_of(ctx, rel, acls))
+
+
 def run(ctx):
     ctx.rule("L1", "request counter: +1 only on request & ~full & ~response, -1 only on response & ~empty & ~request, ready is "
                    "empty, empty = counter == 0", min_sites=14)
@@ -131,15 +152,8 @@ def run(ctx):
             ok = i is not None and i.cls.endswith("RoundRobin") and len(i.call.args) == 2 and norm(i.call.args[0]) == "len(masters)" and \
                 norm(i.call.args[1]).endswith("SP_CE")
             ctx.ob("L2", rel, acls, f"{rr} = RoundRobin(len(masters), SP_CE)", ok, "" if ok else f"{i}")
+        _grant_freeze(ctx, "L2", rel, acls, fx)
         for rr, lock, chans in (("self.rr_write", "self.wr_lock", ("aw", "w", "b")), ("self.rr_read", "self.rd_lock", ("ar", "r"))):
-            ce = fx.find(domain="comb", target=f"{rr}.ce")
-            ok = len(ce) == 1 and not ce[0].guards
-            if ok:
-                fce = B.from_expr(ce[0].value)
-                ok = B.entails(fce, B.A(f"{lock}.ready")) and all(B.entails(fce, B.Not(B.A(f"target.{c}.valid"))) for c in chans)
-            ctx.ob("L2", rel, acls, f"{rr}.ce needs {lock}.ready and an idle target", ok,
-                   "" if ok else f"{rr}.ce <= {ce[0].v if ce else '?'}: arbitration can change while responses are outstanding",
-                   ce[0].line if ce else 0)
             rq = fx.find(domain="comb", target=f"{rr}.request")
             ok = len(rq) == 1 and not rq[0].guards
             if ok:
